@@ -195,6 +195,12 @@ func (ft *FT) exit(b *Body) {
 			if len(parts) > 1 {
 				pn = fmt.Sprintf("%s.%d", name, k+1)
 			}
+			if ft.e.perReturn {
+				for ri, r := range b.rets {
+					ft.oblige(&Obligation{Name: fmt.Sprintf("%s@ret%d", pn, ri), Kind: "post", Tags: ft.clauseTags(c), Guard: r.reach, Goal: g, Src: c.Src, Pos: ft.pos(r.pos)})
+				}
+				continue
+			}
 			ft.oblige(&Obligation{Name: pn, Kind: "post", Tags: ft.clauseTags(c), Guard: exit, Goal: g, Src: c.Src, Pos: ft.pos(fn.Pos())})
 		}
 		// cover: the antecedent of an implication is reachable at exit
